@@ -1287,7 +1287,7 @@ class CompilerPassGatherCode(CompilerPass):
 
         num_lines = len(s.splitlines())
         num_registers = len(self.used_registers)
-        num_bytes = len(s) + num_lines - 1
+        num_bytes = len(s) + max(num_lines - 1, 0)  # an empty program has no line breaks
 
         self.data.result = {
             "code": s,
